@@ -77,9 +77,15 @@ def results(args):
                     a, b = res.parameter_on_parameter('x0', 'x1', sorted=s_)
                     _pairs(ctx, 'parameter-on-parameter', a, b, [(x.vector[0], x.vector[1]) for x in lastpop], s_)
             elif part == 'gop-tag1':
-                t1 = [x for x in inds if x.population_id == 1]
-                pv, gv = res.goal_on_parameter('x0', 'f0', population_id=1, sorted=True)
-                _pairs(ctx, 'goal-on-parameter-tag1', pv, gv, [(x.vector[0], x.costs[0]) for x in t1], True)
+                # explicit generation tags, including 0 (falsy!) and the largest one
+                for tag in (0, 1, 2):
+                    tt = [x for x in inds if x.population_id == tag]
+                    pv, gv = res.goal_on_parameter('x0', 'f0', population_id=tag, sorted=True)
+                    _pairs(ctx, 'goal-on-parameter-tag%d' % tag, pv, gv, [(x.vector[0], x.costs[0]) for x in tt], True)
+                    gv2, pv2 = res.parameter_on_goal('f0', 'x1', population_id=tag)
+                    _pairs(ctx, 'parameter-on-goal-tag%d' % tag, gv2, pv2, [(x.costs[0], x.vector[1]) for x in tt], False)
+                    a, b = res.parameter_on_parameter('x1', 'x0', population_id=tag)
+                    _pairs(ctx, 'parameter-on-parameter-tag%d' % tag, a, b, [(x.vector[1], x.vector[0]) for x in tt], False)
     return body
 
 
